@@ -314,7 +314,7 @@ FLOAT_HUGE = 1e308
 def source(kind, v):
     """A source expression made of literals whose value is exactly (kind, v), for binding an operand to a
     variable.  Negative integers are written as subtractions from zero so that the text does not depend on
-    how the compiler folds a negated literal (C06 finding); the engines echo every operand to check it."""
+    how the compiler folds a negated literal (a former C06 finding); the engines echo every operand to check it."""
     if kind == "bool":
         return "true" if v else "false"
     if kind == "byte":
